@@ -27,6 +27,12 @@ var stopAt = map[string]bool{"chk.copied": true, "chk.pre-exec": true, "chk.read
 
 func init() {
 	litestream.VerifSetHook(func(ev string, args ...any) {
+		if parActive.Load() > 0 {
+			if pp := parLookup(); pp != nil {
+				pp.park(ev)
+				return
+			}
+		}
 		if len(args) == 0 || !stopAt[ev] {
 			return
 		}
